@@ -118,6 +118,73 @@ func main() {
 		o.Set("db.applyOrder", "db_write.go:applyRequests", strings.Join(seq, ","), fd != nil && len(seq) == 2, "lsm,head")
 	}
 
+	{
+		// db.headPerRequest: applyRequests logs the value-log head for EVERY request of a commit batch
+		// (updateHead only looks at the buckets of the pointers it is given): the call is a statement
+		// of the loop body over `reqs`, with that request's pointers
+		fd := dw.Func("DB.applyRequests")
+		per := false
+		if fd != nil {
+			ast.Inspect(fd.Body, func(x ast.Node) bool {
+				rs, isRange := x.(*ast.RangeStmt)
+				if !isRange || dw.Src(rs.X) != "reqs" {
+					return true
+				}
+				for _, st := range rs.Body.List {
+					if es, isExpr := st.(*ast.ExprStmt); isExpr && dw.Src(es.X) == "db.updateHead(r.Ptrs)" {
+						per = true
+					}
+				}
+				return false
+			})
+		}
+		o.Set("db.headPerRequest", "db_write.go:applyRequests", "perRequest", per, "perRequest")
+	}
+	{
+		// manifest.rewriteOrder: rewriteLocked switches CURRENT to the new snapshot before the old
+		// manifest file is removed
+		mf := o.Load("manifest/manager.go")
+		fd := mf.Func("Manager.rewriteLocked")
+		var cur, rem token.Pos
+		if fd != nil {
+			ast.Inspect(fd.Body, func(x ast.Node) bool {
+				c, isCall := x.(*ast.CallExpr)
+				if !isCall {
+					return true
+				}
+				switch mf.Src(c.Fun) {
+				case "m.writeCurrent":
+					if cur == 0 {
+						cur = c.Pos()
+					}
+				case "m.fs.Remove":
+					if len(c.Args) == 1 && strings.Contains(mf.Src(c.Args[0]), "oldName") {
+						rem = c.Pos()
+					}
+				}
+				return true
+			})
+		}
+		o.Set("manifest.rewriteOrder", "manifest/manager.go:rewriteLocked", "current,remove", fd != nil && cur != 0 && rem != 0 && cur < rem, "current,remove")
+	}
+	{
+		// wal.recordBound (same rule and name as the WAL extractor): DecodeRecord trusts the length
+		// field; the only comparison on it is `length == 0`
+		rec := o.Load("wal/record.go")
+		dec := rec.Func("DecodeRecord")
+		ok := dec != nil
+		if ok {
+			n := strings.Count(rec.Src(dec.Body), "utils.ErrPartialRecord")
+			ok = n >= 2 && n <= 3
+			for _, c := range rec.Comparisons(dec.Body) {
+				if (c.X == "length" || c.Y == "length") && !(c.X == "length" && c.Y == "0" && c.Op == "eq") {
+					ok = false
+				}
+			}
+		}
+		o.Set("wal.recordBound", "wal/record.go:DecodeRecord", "none", ok, "none")
+	}
+
 	// ------------------------------------------------------------ lsm/lsm.go SetBatch
 	ll := o.Load("lsm/lsm.go")
 	{
@@ -159,7 +226,23 @@ func main() {
 		if strings.Contains(src, "range lsm.immutables") && strings.Contains(src, "mt.maxVersion") {
 			srcs = append(srcs, "imm")
 		}
-		if strings.Contains(src, "lm.maxVersion()") {
+		// the table indexes are consulted unconditionally: `if v := lm.maxVersion(); v > max { max = v }`
+		// and nothing returns before it (one `return 0` for a nil receiver, one final `return max`)
+		tablesMax, returns := false, 0
+		if fd != nil {
+			ast.Inspect(fd.Body, func(x ast.Node) bool {
+				switch n := x.(type) {
+				case *ast.ReturnStmt:
+					returns++
+				case *ast.IfStmt:
+					if n.Init != nil && ll.Src(n.Init) == "v := lm.maxVersion()" && ll.Src(n.Cond) == "v > max" {
+						tablesMax = true
+					}
+				}
+				return true
+			})
+		}
+		if strings.Contains(src, "lm.maxVersion()") && tablesMax && returns == 2 {
 			srcs = append(srcs, "tables")
 		}
 		// part 2: memtable maxVersion is maintained by WAL replay
